@@ -30,7 +30,7 @@ def cases(tier, seed):
         out.append({'n': n, 'part': 'actions', 'S': S, 'seed': seed * 131 + n})
         if n <= 4:
             out.append({'n': n, 'part': 'open', 'S': S, 'seed': seed * 131 + n})
-    for i in range(10 if tier == 'quick' else 40):
+    for i in range(24 if tier == 'quick' else 96):
         out.append({'n': 3, 'part': 'real', 'S': 1, 'seed': seed * 1009 + i})
     return out
 
@@ -300,12 +300,22 @@ def run_real(desc, ctx):
     uris = ['sim://swarm%d' % i for i in range(3)]
     bad = rnd.choice((None, None, uris[rnd.randrange(3)]))
     devs = {}
+    # how the bad member fails: there is no such Crazyflie, or its link dies while the driver is still connecting
+    # (reported from the connecting thread, from the driver's thread before connect() returns, or racing with its
+    # return), or with the very first packet
+    bad_mode = rnd.choice(('missing', 'sync', 'thread', 'race', 'first_tx')) if bad is not None else None
     for u in uris:
-        if u == bad:
+        if u == bad and bad_mode == 'missing':
             simlink.SIMS.pop(u, None)
             continue
         devs[u] = simcf.SimCF(gen.profile(desc['seed'] + hash(u) % 97, 2, 3))
         simlink.SIMS[u] = simlink.LinkSpec(devs[u])
+        if u == bad:
+            if bad_mode == 'first_tx':
+                simlink.SIMS[u].fail_after_tx = 1
+                simlink.SIMS[u].fail_reporter = rnd.choice(('driver', 'sender'))
+            else:
+                simlink.SIMS[u].fail_in_connect = bad_mode
     ob = {'seen': [], 'exc': None}
 
     def fn(s):
@@ -347,7 +357,9 @@ def run_real(desc, ctx):
     _, abort, sch = harness.sched_case(fn, seed=desc['seed'], policy='random', horizon=2000.0)
     ctx.evals()
     ctx.count('mon.real_members')
-    info = {'uris': uris, 'unreachable': bad}
+    info = {'uris': uris, 'unreachable': bad, 'how_it_fails': bad_mode}
+    if bad_mode not in (None, 'missing'):
+        ctx.count('mon.real_swarm_member_whose_link_dies_while_connecting')
     if reopen and abort is None and ob.get('fault_fired'):
         ctx.count('mon.real_swarm_reopened_with_a_link_dropping_in_the_handshake')
         if ob.get('reopen_exc') is None or ob.get('open_after_reopen'):
